@@ -185,7 +185,11 @@ func c22Mint(sp c22Spec, slot int, n int, now time.Duration, start time.Time) c2
 	case 0:
 		claims.Issuer = c22Issuer
 	case 1:
-		claims.Issuer = "https://evil.test"
+		// every one of these differs from the configured issuer; which one is a function of the
+		// slot and mint counter only (no PRNG draw), so near-misses (extensions, truncations,
+		// case and trailing-slash variants) are presented as well as an unrelated issuer
+		wrong := []string{"https://evil.test", c22Issuer + ".evil.test", c22Issuer + "/tenant-b", c22Issuer[:len(c22Issuer)-1], c22Issuer + "/", "HTTPS://IDP.TEST", "x" + c22Issuer}
+		claims.Issuer = wrong[(slot+n)%len(wrong)]
 	}
 	switch sp.aud {
 	case 0:
